@@ -88,7 +88,7 @@ type c16metric struct {
 
 func TestC16(t *testing.T) {
 	e := vlib.GetEnv()
-	n := e.Pick(2000, 150000)
+	n := e.Pick(2000, 600000)
 	vlib.RunCases(t, "C16", "batches", n, func(c *vlib.Case) vlib.Result {
 		var res vlib.Result
 		rng := c.Rng
